@@ -25,12 +25,16 @@ META = {
         "BaseException instance or SecurityError/ValidationError; zero recorded calls except constructors of BaseException "
         "subclasses; no import attempt; an unresolvable name yields a synthetic Exception subclass of that name; after the payloads of each target, probe loads of known non-exceptions are still refused and no "
         "module namespace (taskiq.serialization, taskiq.exceptions, the planted module, builtins) gained or lost an attribute. "
+        "Alias sequences: for 15 dotted names every ordered pair of spellings (all module/type split points and the module-less "
+        "form, incl. a planted name that is an exception class through one split and a function through the other) loaded one "
+        "after the other in one process, and a name loaded before and after its module appears in sys.modules: each load is "
+        "judged by what its spelling denotes at that moment. "
         "distinct_nontrivial = distinct (target kind, placement, loader, outcome) classes."
     ),
     "assumptions": [
         "attribute hooks that run on plain getattr (module __getattr__, descriptors) are not planted: resolving a dotted name necessarily reads attributes",
     ],
-    "required_counters": ["payloads", "security_errors", "exceptions_built", "synthetic_classes"],
+    "required_counters": ["payloads", "security_errors", "exceptions_built", "synthetic_classes", "alias_loads"],
     "bounds": {"quick": {"placements": 5, "loaders": 3}, "thorough": {"placements": 5, "loaders": 3, "extra": "two payloads per result (cause and context both crafted)"}},
 }
 
@@ -126,8 +130,29 @@ def _plant() -> None:
     m.an_int = 5
     sub.SubExc = SubExc
     sub.sub_fn = sub_fn
+
+    # the same dotted name reached through two split points: attribute `twin` of the package is a namespace
+    # whose `Err` is a genuine exception class, the loaded submodule `vplant.twin` has a function `Err`
+    class TwinErr(Exception):
+        def __init__(self, *a: Any) -> None:
+            CALLS.append("exc:vplant.twin.Err(attribute)")
+            super().__init__(*a)
+
+    def twin_fn(*a: Any, **k: Any) -> str:
+        CALLS.append("vplant.twin.Err(function in submodule)")
+        return "called"
+
+    class twin:  # noqa: N801
+        Err = TwinErr
+
+    TwinErr.__module__ = "vplant"
+    TwinErr.__qualname__ = "twin.Err"
+    m.twin = twin
+    twin_mod = types.ModuleType("vplant.twin")
+    twin_mod.Err = twin_fn
     sys.modules["vplant"] = m
     sys.modules["vplant.sub"] = sub
+    sys.modules["vplant.twin"] = twin_mod
 
 
 # (module, dotted type, kind) ; kind in exc | nonexc | unresolved
@@ -348,8 +373,72 @@ def run_case(target: Tuple[Optional[str], str, str], args: Tuple[Any, ...], plac
         acc.sample({"payload": case, "outcome": repr(out)[:120], "recorded_calls": list(CALLS)})
 
 
+# ---- the same dotted name spelled in different ways, loaded one after the other ---------------------------
+def _truth(mod: Optional[str], typ: str) -> str:
+    """What the name really denotes right now: exc | nonexc | unresolved."""
+    if mod is None or mod not in sys.modules:
+        return "unresolved"
+    cur: Any = sys.modules[mod]
+    for part in typ.split("."):
+        if not hasattr(cur, part):
+            return "unresolved"
+        cur = getattr(cur, part)
+    return "exc" if isinstance(cur, type) and issubclass(cur, BaseException) else "nonexc"
+
+
+def _spellings(joined: str) -> List[Tuple[Optional[str], str]]:
+    parts = joined.split(".")
+    out: List[Tuple[Optional[str], str]] = [(None, joined)]
+    for k in range(1, len(parts)):
+        out.append((".".join(parts[:k]), ".".join(parts[k:])))
+    return out
+
+
+ALIAS_NAMES = [
+    "vplant.trap_fn", "vplant.NonExc", "vplant.sub.sub_fn", "vplant.sub.SubExc", "vplant.GoodExc", "vplant.GoodExc.build",
+    "vplant.Outer.Inner", "vplant.Outer.InnerNon", "vplant.twin.Err", "os.system", "os.path.join", "builtins.print",
+    "builtins.ValueError", "subprocess.Popen", "taskiq.serialization.create_exception_cls",
+]
+
+
+def run_alias_sequences(acc: Acc) -> None:
+    """Every ordered pair of spellings (module / type split points, and the module-less form) of one dotted
+    name, loaded one after the other in this process; then a name loaded while its module is absent and again
+    after the module has appeared. Each load is judged on its own by what the spelling denotes at that
+    moment - a spelling that denotes a non-exception is refused whatever an earlier load concluded."""
+    _plant()
+    import subprocess  # noqa: F401  (a loaded module for the subprocess.Popen spellings)
+
+    for joined in ALIAS_NAMES:
+        sp = _spellings(joined)
+        for s1, s2 in itertools.permutations(sp, 2):
+            for placement, loader in (("top", "exception_to_python"), ("cause", "model_validate_json")):
+                for s in (s1, s2):
+                    acc.count("alias_loads")
+                    run_case((s[0], s[1], _truth(*s)), ("x",), placement, loader, acc)
+    # late resolution
+    for placement, loader in (("top", "exception_to_python"), ("context", "model_validate")):
+        sys.modules.pop("vplant_late", None)
+        run_case(("vplant_late", "run", "unresolved"), ("x",), placement, loader, acc)
+        late = types.ModuleType("vplant_late")
+
+        def run(*a: Any, **k: Any) -> str:
+            CALLS.append("vplant_late.run")
+            return "called"
+
+        late.run = run
+        sys.modules["vplant_late"] = late
+        try:
+            acc.count("alias_loads")
+            run_case(("vplant_late", "run", "nonexc"), ("x",), placement, loader, acc)
+        finally:
+            sys.modules.pop("vplant_late", None)
+    for v in acc.violations.values():
+        v["replay"] = {"alias": True}
+
+
 def shards(tier: str, seed: int) -> List[Any]:
-    return [{"tier": tier, "t": i} for i in range(len(TARGETS))]
+    return [{"tier": tier, "t": i} for i in range(len(TARGETS))] + [{"tier": tier, "alias": True}]
 
 
 def _namespaces() -> Dict[str, Any]:
@@ -392,6 +481,9 @@ def probe_after(t: Any, before: Dict[str, Any], acc: Acc) -> None:
 def run_shard(shard: Dict[str, Any]) -> Dict[str, Any]:
     acc = Acc()
     _plant()
+    if shard.get("alias"):
+        run_alias_sequences(acc)
+        return acc.as_dict()
     t = TARGETS[shard["t"]]
     before = _namespaces()
     for args, placement, loader in itertools.product(ARGS, PLACEMENTS, LOADERS):
@@ -407,6 +499,11 @@ def run_shard(shard: Dict[str, Any]) -> Dict[str, Any]:
 
 def replay(obj: Dict[str, Any]) -> int:
     acc = Acc()
+    if obj.get("alias"):
+        run_alias_sequences(acc)  # the whole family in order: the violation depends on earlier loads
+        for k, v in acc.violations.items():
+            print("oracle:", k, "-", v["message"])
+        return 1 if acc.violations else 0
     t, args, placement, loader = obj["case"]
     run_case((t[0], t[1], t[2]), tuple(args), placement, loader, acc)
     for k, v in acc.violations.items():
